@@ -4,6 +4,7 @@ from . import build, program, explore as ex_mod
 def main():
     args = sys.argv[1:]; fn = args[0]
     params = dict(a.split('=', 1) for a in args[1:] if '=' in a)
+    only = params.pop('only', None)
     deadline = int(params.pop('deadline', 600)); tl = int(params.pop('tl', 5000)); maxp = int(params.pop('maxpaths', 1000000))
     t = time.time()
     built = build.build_all(); prog = program.Program(built, build.VERIF); prog.texts = None
@@ -18,6 +19,7 @@ def main():
     print("checks", len(ex.checks), "bad", bad)
     seen = set()
     for v in ex.violations:
+        if only and only not in v['check']: continue
         k = (v['check'], tuple(v['tags']))
         if k in seen: continue
         seen.add(k)
